@@ -633,6 +633,55 @@ impl Arena {
         }
     }
 
+    /// IEEE evaluation of every term of this run on other inputs (same operations as the shadows)
+    pub fn eval_all(&self, inputs: &[i64]) -> Vec<f64> {
+        let mut v: Vec<f64> = Vec::with_capacity(self.terms.len());
+        for info in &self.terms {
+            let g = |x: u32| v[x as usize];
+            let r = match info.t {
+                T::C(bits) => f64::from_bits(bits),
+                T::V(k) => {
+                    let spec = &self.vars[k as usize];
+                    let raw = inputs.get(k as usize).copied().unwrap_or(if spec.lo <= 0 && 0 <= spec.hi { 0 } else { spec.lo }).clamp(spec.lo, spec.hi);
+                    raw as f64 / (1u64 << spec.shift) as f64
+                }
+                T::Add(x, y) => g(x) + g(y),
+                T::Sub(x, y) => g(x) - g(y),
+                T::Mul(x, y) => g(x) * g(y),
+                T::Div(x, y) => g(x) / g(y),
+                T::Neg(x) => -g(x),
+                T::Abs(x) => g(x).abs(),
+                T::Sqrt(x) => g(x).sqrt(),
+                T::Max(x, y) => g(x).max(g(y)),
+                T::Min(x, y) => g(x).min(g(y)),
+                T::Uf(Uf::Exp, x) => g(x).exp(),
+                T::Uf(Uf::Ln, x) => g(x).ln(),
+                T::Uf(Uf::Tanh, x) => g(x).tanh(),
+                T::Pow(x, y) => g(x).powf(g(y)),
+                T::Fma(x, y, z) => g(x).mul_add(g(y), g(z)),
+                T::Ite(c, x, y) => {
+                    if self.eval_bool(c, &v) {
+                        g(x)
+                    } else {
+                        g(y)
+                    }
+                }
+            };
+            v.push(r);
+        }
+        v
+    }
+    pub fn eval_bool(&self, b: u32, v: &[f64]) -> bool {
+        match &self.bools[b as usize].0 {
+            B::K(k) => *k,
+            B::Lt(x, y) => v[*x as usize] < v[*y as usize],
+            B::Eq(x, y) => v[*x as usize] == v[*y as usize],
+            B::Not(x) => !self.eval_bool(*x, v),
+            B::And(xs) => xs.iter().all(|x| self.eval_bool(*x, v)),
+            B::Or(xs) => xs.iter().any(|x| self.eval_bool(*x, v)),
+        }
+    }
+
     pub fn note_loc(&mut self, loc: &'static Location<'static>) {
         let f = loc.file();
         if f.starts_with("/repo/") {
